@@ -573,6 +573,10 @@ def compare(case, impl, model):
             return ("sort left the elements out of order: " + (got or "")[:200], False)
         return None
     if got != want:
+        # a printed value with control bytes in it: text the operator never wrote (a read past the end of a buffer)
+        if got is not None and any(ord(ch) < 9 or ch == "\x7f" for ch in got) and not any(ord(ch) < 9 for ch in (want or "")):
+            return ("the printed value contains bytes no printing of a value produces (a read past the end of the text): implementation %s, "
+                    "expected %s (%s)" % (repr(got)[:120], repr(want)[:120], m[2]), True)
         return ("value differs: implementation %s, model %s (%s)" % (repr(got)[:120], repr(want)[:120], m[2]), False)
     return None
 
